@@ -89,7 +89,7 @@ def lateFlag : FState → Bool
 
 /-- Not in a token visit, or (the token was passed to the station itself) in one that begins now. -/
 def NVt (st : FState) (tx : Option Bytes) (now : Int) : Prop :=
-  visitTime st = none ∨ visitTime st = some now ∧ lateFlag st = false ∧ tx ≠ none
+  visitTime st = none ∨ visitTime st = some now ∧ lateFlag st = false ∧ ∃ da sa, tx = some (sendToken da sa)
 
 theorem transmit_hk (c : Ctx) (now : Int) (b : Bytes) (c' : Ctx) (h : transmit c now b = .ok c') :
     HK c.s c'.s ∧ c'.s.st = c.s.st ∧ c'.tx = some b := by
@@ -111,7 +111,7 @@ theorem passTokenOn_hk (c : Ctx) (now : Int) (att : Attempt) (c' : Ctx) (h : pas
     split at h
     · obtain ⟨s', hs', rfl⟩ := tr_cases _ _ _ _ h
       have := toUseToken_eq hs'; subst this
-      exact ⟨⟨a1.1, a1.2⟩, Or.inr ⟨rfl, rfl, by simp only [upd]; rw [a3]; simp⟩⟩
+      exact ⟨⟨a1.1, a1.2⟩, Or.inr ⟨rfl, rfl, _, _, a3⟩⟩
     · obtain ⟨s', hs', rfl⟩ := tr_cases _ _ _ _ h
       have := toCheckTokenPass_eq hs'; subst this
       exact ⟨⟨a1.1, a1.2⟩, Or.inl rfl⟩
@@ -574,7 +574,8 @@ structure HoldRel (s : Station) (c' : Ctx) (now : Int) : Prop where
   keep : visitTime s.st = none → HK s c'.s
   vis : c'.s.st = s.st ∨ (visitTime c'.s.st = visitTime s.st ∧ visitTime s.st ≠ none ∧ lateFlag c'.s.st = true) ∨ NVs c'.s.st now
   guard : c'.tx ≠ none → lateFlag c'.s.st = true → now < c'.s.endTokenHoldTime ∨ lateFlag s.st = false
-  fresh : ∀ tk, visitTime s.st = some tk → c'.tx = none → visitTime c'.s.st = some tk ∨ visitTime c'.s.st = none
+  cls : ∀ tk, visitTime s.st = some tk → (c'.s.st = s.st ∧ c'.tx = none) ∨ (visitTime c'.s.st = some tk ∧ lateFlag c'.s.st = true) ∨
+    visitTime c'.s.st = none ∨ ∃ da sa, c'.tx = some (sendToken da sa)
   recd : ∀ tk, visitTime s.st = some tk → c'.tx ≠ none → c'.s.lastTokenTime = tk
 
 theorem doUseToken_rel (c : Ctx) (now : Int) (d : UseData) (fcd : Bool) (c' : Ctx)
@@ -594,13 +595,13 @@ theorem doUseToken_rel (c : Ctx) (now : Int) (d : UseData) (fcd : Bool) (c' : Ct
     rcases a3 h1 h2 with b | b
     · exact .inl (by rw [a1.2]; exact b)
     · exact .inr (by rw [hst]; exact b)
-  · intro tk htk hn
+  · intro tk htk
     rw [hst] at htk; cases htk
-    rcases a2 with ⟨b1, -⟩ | ⟨b1, -⟩ | b1 | ⟨-, -, b3⟩
-    · exact .inl (by rw [b1]; rfl)
-    · exact .inl b1
-    · exact .inr b1
-    · exact absurd hn b3
+    rcases a2 with ⟨b1, b2⟩ | ⟨b1, b2⟩ | b1 | ⟨-, -, b3⟩
+    · exact .inl ⟨b1.trans hst.symm, b2⟩
+    · exact .inr (.inl ⟨b1, b2⟩)
+    · exact .inr (.inr (.inl b1))
+    · exact .inr (.inr (.inr b3))
   · intro tk htk _
     rw [hst] at htk; cases htk
     rw [a1.1]; exact holdUpdate_last c.s d
@@ -626,9 +627,9 @@ theorem doAwaitData_rel (c : Ctx) (now : Int) (a : Nat) (d : UseData) (c' : Ctx)
     intro c1 e1 e2 e3
     refine ⟨fun tk _ => .inl e1, fun _ => e1, .inr (.inl ⟨by rw [e2, hst]; rfl, by rw [hv]; simp, by rw [e2]; rfl⟩),
       fun hh => absurd e3 hh, ?_, fun _ _ hh => absurd e3 hh⟩
-    intro tk htk _
+    intro tk htk
     rw [hv] at htk; cases htk
-    exact .inl (by rw [e2]; rfl)
+    exact .inr (.inl ⟨by rw [e2]; rfl, by rw [e2]; rfl⟩)
   split at h
   · cases h
   · cases h
@@ -643,7 +644,7 @@ theorem doAwaitData_rel (c : Ctx) (now : Int) (a : Nat) (d : UseData) (c' : Ctx)
         split at hs' <;> first | (cases hs'; rfl) | cases hs'
       have hk : HK c.s s' := (hk_markRx c.s now).trans e
       exact ⟨fun tk _ => .inl hk, fun _ => hk, .inr (.inr (.inl (by show visitTime s'.st = none; rw [est]; rfl))),
-        (fun hh => absurd htx hh), (fun _ _ _ => .inr (by show visitTime s'.st = none; rw [est]; rfl)),
+        (fun hh => absurd htx hh), (fun _ _ => .inr (.inr (.inl (by show visitTime s'.st = none; rw [est]; rfl)))),
         (fun _ _ hh => absurd htx hh)⟩
   · -- nothing received
     have hw := hk_getOrInsert c.s now
@@ -670,19 +671,19 @@ theorem doAwaitData_rel (c : Ctx) (now : Int) (a : Nat) (d : UseData) (c' : Ctx)
         rcases a3 h1' h2' with b | b
         · exact .inl (by rw [a1.2]; exact b)
         · cases b
-      · intro tk htk hn
+      · intro tk htk
         rw [hv] at htk; cases htk
-        rcases a2 with ⟨b1, -⟩ | ⟨b1, -⟩ | b1 | ⟨-, -, b3⟩
-        · exact .inl (by rw [b1]; rfl)
-        · exact .inl b1
-        · exact .inr b1
-        · exact absurd hn b3
+        rcases a2 with ⟨b1, -⟩ | ⟨b1, b2⟩ | b1 | ⟨-, -, b3⟩
+        · exact .inr (.inl ⟨by rw [b1]; rfl, by rw [b1]; rfl⟩)
+        · exact .inr (.inl ⟨b1, b2⟩)
+        · exact .inr (.inr (.inl b1))
+        · exact .inr (.inr (.inr b3))
       · intro tk htk _
         rw [hv] at htk; cases htk
         rw [a1.1]; exact holdUpdate_last c2.s d
     · cases h
       exact ⟨fun tk _ => .inl hw.1, fun _ => hw.1, .inl hw.2, fun hh => absurd htx hh,
-        (fun tk htk _ => .inl (by rw [show (checkSlotExpired c.s now).1.st = c.s.st from hw.2]; exact htk)),
+        (fun tk htk => .inl ⟨hw.2, htx⟩),
         (fun _ _ hh => absurd htx hh)⟩
 
 theorem lateFlag_of_none (st : FState) (h : visitTime st = none) : lateFlag st = false := by
@@ -707,7 +708,7 @@ theorem HoldRel.of_eq {s s0 : Station} {c' : Ctx} {now : Int} (h1 : HK s s0) (h2
   · intro hn; exact h1.trans (h.keep (by rw [h2]; exact hn))
   · rw [← h2]; exact h.vis
   · rw [← h2]; exact h.guard
-  · rw [← h2]; exact h.fresh
+  · rw [← h2]; exact h.cls
   · rw [← h2]; exact h.recd
 
 /-- States of a station in a running ring. -/
@@ -729,7 +730,7 @@ theorem poll_holdRel (s : Station) (apps : Apps) (now : Int) (phy : Bool) (rx : 
     have hk : HK s (markBusActivity s now) := by simp [HK, markBusActivity]
     have hs : (markBusActivity s now).st = s.st := by simp [markBusActivity]
     exact ⟨fun tk _ => .inl hk, fun _ => hk, .inl hs, fun hh => absurd rfl hh,
-      (fun tk htk _ => .inl (by show visitTime (markBusActivity s now).st = some tk; rw [hs]; exact htk)), (fun _ _ hh => absurd rfl hh)⟩
+      (fun tk htk => .inl ⟨hs, rfl⟩), (fun _ _ hh => absurd rfl hh)⟩
   · obtain ⟨f1, f2, -, -, -, -, f7, f8⟩ := checkBA_fields s now rx.length
     refine HoldRel.of_eq (s0 := checkBusActivity s now rx.length) ⟨f7, f8⟩ f1 f2 ?_
     simp only [upd] at h
